@@ -439,6 +439,8 @@ pub fn version_matrix(opts: &Opts, st: &mut Stats) -> Vec<History> {
                     json!({"base": {"amount": "9", "denom": "base"}, "accumulated_base": "2", "accumulated_quote": "20", "accumulated_fee": if i % 3 == 0 { "0" } else { "2" }, "fee": fee, "id": id, "owner": "carol", "price": price, "quote": {"amount": "90", "denom": "q0"}})
                 };
                 h.w.store.data.insert(map_key("bid", &id), serde_json::to_vec(&rec).unwrap());
+                // the contract holds what these bids are still owed (unspent quote 70 + unspent fee 7)
+                *h.w.ledger.entry((CONTRACT.to_string(), "q0".to_string())).or_insert(0) += 70 + if i % 3 == 0 { 0 } else { 7 };
             }
             h.step(version_op(v), opts, st);
             h.step(Op::Migrate { msg: json!({}) }, opts, st);
